@@ -29,6 +29,12 @@ def remEuclid (x y : Rat) : Rat := x - y * (divEuclid x y : Rat)
 
 def sgnRat (x : Rat) : Rat := if x < 0 then -1 else if x = 0 then 0 else 1
 
+/-- `x ^ n`, evaluated without a long product for the bases 0, 1, −1 (so that the driver can evaluate the specification
+    for the extreme `usize` exponents); `Props/C04.spec_qpow_is_pow`: it IS `x ^ n` -/
+def qpow (x : Rat) (n : Nat) : Rat :=
+  if n = 0 then 1 else if x = 0 then 0 else if x = 1 then 1
+  else if x = -1 then (if n % 2 = 0 then 1 else -1) else x ^ n
+
 def bin (o : Bin) (x y : Rat) : Option Rat :=
   match o with
   | .add => some (x + y)
@@ -70,7 +76,7 @@ def step (vals : List Rat) (op : Op) : Option Rat :=
   match op with
   | .bin o i j => do bin o (← vals[i]?) (← vals[j]?)
   | .un o i => do un o (← vals[i]?)
-  | .pow i n => do some ((← vals[i]?) ^ n)
+  | .pow i n => do some (qpow (← vals[i]?) n)
   | .mulSign i s => do let x ← vals[i]?; some (if s then -x else x)
   | .intR o i z => do intR o (← vals[i]?) z
   | .intL o z i => do intL o z (← vals[i]?)
